@@ -264,6 +264,9 @@ func (w *World) sweep() (scanned int, findings []sweepFinding) {
 		for _, b := range fn.Blocks {
 			for _, ins := range b.Instrs {
 				pos := w.prog.Fset.Position(ins.Pos()).String()
+				if !ins.Pos().IsValid() {
+					pos = w.prog.Fset.Position(fn.Pos()).String()
+				}
 				switch ins := ins.(type) {
 				case *ssa.Store:
 					if g := rootGlobal(ins.Addr, 0); g != nil && !isInit {
